@@ -19,7 +19,8 @@ from common import (Infra, go_must_pass, go_test, harness_overlay, read_ndjson, 
 PKG = "internal/tools/regexAnalysis"
 
 # (name, cfg, kind)   kind: "mc" exhaustive builder graph, "sim" random generator
-QUICK = [("wide1", "RegexWide1.cfg", "mc"), ("core", "RegexCoreQ.cfg", "mc"), ("fold", "RegexFold.cfg", "mc"), ("suffix", "RegexSuffixQ.cfg", "mc")]
+QUICK = [("wide1", "RegexWide1.cfg", "mc"), ("core", "RegexCoreQ.cfg", "mc"), ("fold", "RegexFold.cfg", "mc"), ("suffix", "RegexSuffixQ.cfg", "mc"),
+         ("suffixloop", "RegexSuffixLoopQ.cfg", "mc")]
 # the thorough tier starts with the quick sets (a row keeps the name of the first set it appears in), so that the
 # smallest failing expression - and with it the key of a violation - is the same in both tiers whenever possible
 THOROUGH = QUICK + [("wide2", "RegexWide2.cfg", "mc"), ("coreT", "RegexCoreT.cfg", "mc"), ("deep", "RegexDeep.cfg", "mc")]
